@@ -236,6 +236,71 @@ theorem C07_roundtrip_market (cx : NumCtx) (sq : Rat → Rat) (hr : cx.rnd 0 = 0
     simp only []
     split <;> rfl
 
+/-! ### the same with the sqrt price taken from the market row (`sqrt_price_x96` not given), unchanged between the two calls -/
+
+namespace C07RT
+
+theorem resolveSqrt_row (K : Kern) (pool : Pool) (s s' : State) (h : s'.row = s.row) (sq : Option Nat) :
+    resolveSqrt K pool s' sq = resolveSqrt K pool s sq := by
+  cases sq with
+  | some x => rfl
+  | none => simp only [resolveSqrt, priceOf, h]
+
+theorem addRaw_sqrt_congr (K : Kern) (pool : Pool) (s : State) (a0 a1 : Rat) (lo up : Int) (sq : Option Nat) (x : Nat)
+    (h : resolveSqrt K pool s sq = .ok x) : addRaw K pool s a0 a1 lo up sq = addRaw K pool s a0 a1 lo up (some x) := by
+  unfold addRaw
+  rw [h]
+  simp only [resolveSqrt]
+
+theorem remove_sqrt_congr (K : Kern) (pool : Pool) (s : State) (lo up : Int) (l : Option Int) (c : Bool) (sq : Option Nat)
+    (x : Nat) (rd : Bool) (h : resolveSqrt K pool s sq = .ok x) :
+    remove K pool s lo up l c sq rd = remove K pool s lo up l c (some x) rd := by
+  unfold remove removeNoCollect
+  rw [h]
+  simp only [resolveSqrt]
+
+theorem addRaw_ok_row (K : Kern) (pool : Pool) (s s1 : State) (a0 a1 : Rat) (lo up : Int) (sq : Option Nat)
+    (v : Int × Int × Rat × Rat × Int) (h : addRaw K pool s a0 a1 lo up sq = (.ok v, s1)) : s1.row = s.row := by
+  unfold addRaw at h
+  repeat' split at h
+  all_goals first
+    | (injection h with _ h2; rw [← h2]; rfl)
+    | (cases h)
+
+theorem addRaw_ok_resolves (K : Kern) (pool : Pool) (s s1 : State) (a0 a1 : Rat) (lo up : Int) (sq : Option Nat)
+    (v : Int × Int × Rat × Rat × Int) (h : addRaw K pool s a0 a1 lo up sq = (.ok v, s1)) :
+    ∃ x, resolveSqrt K pool s sq = .ok x := by
+  cases hres : resolveSqrt K pool s sq with
+  | ok x => exact ⟨x, rfl⟩
+  | error e =>
+    exfalso
+    unfold addRaw at h
+    rw [hres] at h
+    repeat' split at h
+    all_goals (try cases h)
+    all_goals simp_all
+
+end C07RT
+
+/-- **round trip on the market state machine, sqrt price from the market** (`sqrt_price_x96` argument omitted or given, the
+    same in both calls; the market row is not changed by the add): remove-with-collect returns and credits exactly the
+    amounts the add reported as used. -/
+theorem C07_roundtrip_market_price (cx : NumCtx) (sq : Rat → Rat) (hr : cx.rnd 0 = 0) (hi : ∀ x, cx.rnd (cx.rnd x) = cx.rnd x)
+    (pool : Pool) (s s1 : State) (a0 a1 : Rat) (lo up : Int) (sq? : Option Nat) (rd : Bool)
+    (lo' up' : Int) (u0 u1 : Rat) (L : Int)
+    (hnew : findPos s.positions lo up = none)
+    (hadd : addRaw (Kern.std cx sq) pool s a0 a1 lo up sq? = (.ok (lo', up', u0, u1, L), s1)) :
+    ∃ s3, remove (Kern.std cx sq) pool s1 lo up none true sq? rd =
+            (.ok [(pool.conv u0 u1).1, (pool.conv u0 u1).2], s3) ∧
+      s3.wallet = Wallet.credit cx (Wallet.credit cx s1.wallet pool.tok0 u0) pool.tok1 u1 ∧
+      s3.isOpen = s1.isOpen := by
+  obtain ⟨x, hres⟩ := addRaw_ok_resolves _ pool s s1 a0 a1 lo up sq? _ hadd
+  have hrow := addRaw_ok_row _ pool s s1 a0 a1 lo up sq? _ hadd
+  have hres1 : resolveSqrt (Kern.std cx sq) pool s1 sq? = .ok x := by rw [resolveSqrt_row _ pool s s1 hrow]; exact hres
+  rw [addRaw_sqrt_congr _ pool s a0 a1 lo up sq? x hres] at hadd
+  rw [remove_sqrt_congr _ pool s1 lo up none true sq? x rd hres1]
+  exact C07_roundtrip_market cx sq hr hi pool s s1 a0 a1 lo up x rd lo' up' u0 u1 L hnew hadd
+
 /-! ### the two contexts of interest satisfy the hypotheses -/
 
 open Numerics in
